@@ -26,7 +26,8 @@ def gen_T10():
     hre = module_assign(u, 'userHostmaskRe')
     need(ast.unparse(hre) == "re.compile('^\\\\S+!\\\\S+@\\\\S+$')", 'userHostmaskRe changed: ' + ast.unparse(hre))
     sh = ast.unparse(find_def(u, 'splitHostmask'))
-    need("hostmask.rsplit('!', 1)" in sh and "rest.rsplit('@', 1)" in sh, 'splitHostmask changed shape')
+    need("rest, host = hostmask.rsplit('@', 1)\n    nick, user = rest.rsplit('!', 1)\n    return (minisix.intern(nick), minisix.intern(user), minisix.intern(host))" in sh,
+         'splitHostmask changed shape')
     t = tree('src/irclib.py')
     cs = find_class(t, 'ChannelState')
     au = _cls_def(cs, 'addUser')
